@@ -808,6 +808,7 @@ class Machine(object):
         self.keys_odd = False       # a &keys/&named function received an odd number of key/value arguments
         self.far_error = False      # inlined (error v) executed in a function with more than 240 locals
         self.far_rest = False       # [a & rest] destructuring executed in a function with more than 240 locals
+        self.iflet_else = False     # error raised by macro-generated code inside the else branch of if-let
 
     # ---- scopes: persistent association list  (sym, cell, next)
     class Scope(object):
@@ -1621,6 +1622,10 @@ def f_or(m, x, sc):
     return r
 
 
+_NOT_MACROS = set(Sym(n) for n in "do upscope if def var set while break fn quote quasiquote splice unquote error "
+                  "+ - * < > <= >= = not=".split())
+
+
 @form("if-let", "when-let")
 def f_iflet(m, x, sc):
     v = x.v
@@ -1632,7 +1637,15 @@ def f_iflet(m, x, sc):
         if not truthy(val):
             if when or len(v) < 4:
                 return None
-            return m.ev(v[3], ns.child())
+            try:
+                return m.ev(v[3], ns.child())
+            except JErr as e:
+                # if-let expands its else branch ahead of time with `macex`; the expansion of a macro
+                # form found there carries no source position of its own
+                n = e.node
+                if type(n) is Tup and n.v and type(n.v[0]) is Sym and n.v[0] in FORMS and n.v[0] not in _NOT_MACROS:
+                    m.iflet_else = True
+                raise
         m.bind(b[i], val, ns, x)
     if when:
         return m.body(v[2:], ns.child())
@@ -1999,10 +2012,12 @@ def predict(forms, pos, line_offset=0):
     hazards = ()
     if m.far_capture:
         hazards += ("far-upvalue",)
-    if m.keys_odd:
-        hazards += ("keys-odd-args",)
+    # keys_odd (odd number of key/value arguments) was a hazard until /repo commit f286ca6 fixed it;
+    # such calls are now ordinary cases
     if m.far_error:
         hazards += ("far-error-operand",)
     if m.far_rest:
         hazards += ("far-rest-destructure",)
+    if m.iflet_else:
+        hazards += ("iflet-else-position",)
     return head + "|" + " ".join(m.obs) + "|" + " ".join(m.trace), m.steps, hazards
